@@ -385,6 +385,7 @@ def main():
                 '(plain, locator, ;, not-cited), 0-3 glossary entries, inline notes, notes nested in notes/lists/quotes/tables, reused and undefined labels, cross-references '
                 'to headings and captioned tables, {{TOC}} variants, base header level; x {default, random footnote anchors, random labels, no labels, complete}; '
                 'non-trivial = >= 2 note calls and >= 3 internal links; distinct = distinct (source, ext)')
+    chk.rule = chk.rule + ' ; plus: glossary / citation entries that call notes, notes made of nested blocks, caption shapes with references by label, every called entry must carry a back-link, EPUB main.xhtml analysed like HTML'
     chk.assumptions = ['entries whose number no call carries are not-cited entries (exempt from the back-link rule, as the property says)']
     chunk = max(20, n // 64)
     chk.run_jobs(work, [(chk.seed, lo, min(n, lo + chunk)) for lo in range(0, n, chunk)])
